@@ -456,4 +456,360 @@ theorem num_resume_equiv (b e : Bytes)
         rw [← this]; exact hres
       exact integerBody_ext c0 b1 e (c0 :: (b1 ++ e)) 0 hb hres'
 
+
+/-- a definitive result: the decoder neither refills nor resumes -/
+def Definitive (len : Nat) (r : NumRes) : Prop := r.2.2 ≠ .eof ∧ r.1 ≠ len
+
+theorem beforeExponent_stable (r e : Bytes) (n st : Nat)
+    (h : Definitive (n + r.length) (beforeExponent r n st)) :
+    beforeExponent (r ++ e) n st = beforeExponent r n st := by
+  unfold Definitive at h
+  cases r with
+  | nil => simp [beforeExponent] at h
+  | cons c r1 =>
+    by_cases hc : (c == 0x65 || c == 0x45) = true
+    · cases r1 with
+      | nil => simp [beforeExponent, hc] at h
+      | cons s r2 =>
+        by_cases hs : (s == 0x2D || s == 0x2B) = true
+        · cases r2 with
+          | nil => simp [beforeExponent, hc, hs] at h
+          | cons d r3 =>
+            by_cases hd : isDigit d = true
+            · simp [beforeExponent, hc, hs, hd] at h ⊢
+              have := countDigits_le r3
+              rw [countDigits_append_lt r3 e (by omega)]
+            · simp [beforeExponent, hc, hs, hd]
+        · by_cases hd : isDigit s = true
+          · simp [beforeExponent, hc, hs, hd] at h ⊢
+            have := countDigits_le r2
+            rw [countDigits_append_lt r2 e (by omega)]
+          · simp [beforeExponent, hc, hs, hd]
+    · simp [beforeExponent, hc]
+
+theorem beforeExponent_err_lt (r : Bytes) (n st : Nat) (h : (beforeExponent r n st).2.2 = .invalidChar) :
+    (beforeExponent r n st).1 < n + r.length := by
+  unfold beforeExponent at h ⊢
+  repeat' split
+  all_goals simp_all
+  all_goals omega
+
+theorem beforeFractional_stable (r e : Bytes) (n st : Nat)
+    (h : Definitive (n + r.length) (beforeFractional r n st)) :
+    beforeFractional (r ++ e) n st = beforeFractional r n st := by
+  cases r with
+  | nil => simp [Definitive, beforeFractional, beforeExponent] at h
+  | cons c r1 =>
+    by_cases hc : (c == 0x2E) = true
+    · cases r1 with
+      | nil => simp [Definitive, beforeFractional, hc] at h
+      | cons d r2 =>
+        by_cases hd : isDigit d = true
+        · have hL : ∀ t, beforeFractional (c :: d :: t) n st =
+              beforeExponent (t.drop (countDigits t)) (n + 2 + countDigits t) 4 := by
+            intro t; simp [beforeFractional, hc, hd]
+          rw [List.cons_append, List.cons_append, hL, hL] at *
+          have hle := countDigits_le r2
+          by_cases hfull : countDigits r2 = r2.length
+          · have hnil : r2.drop (countDigits r2) = [] := by rw [hfull]; simp
+            rw [hnil, beforeExponent_nil] at h
+            simp [Definitive] at h; omega
+          · have hlt : countDigits r2 < r2.length := by omega
+            rw [countDigits_append_lt r2 e hlt, drop_countDigits_append r2 e hlt]
+            apply beforeExponent_stable
+            have : n + 2 + countDigits r2 + (r2.drop (countDigits r2)).length = n + (c :: d :: r2).length := by
+              simp; omega
+            rw [this]; exact h
+        · simp [beforeFractional, hc, hd]
+    · have h1 : ∀ t, beforeFractional (c :: t) n st = beforeExponent (c :: t) n st := by
+        intro t; simp [beforeFractional, hc]
+      rw [List.cons_append, h1, h1] at *
+      exact beforeExponent_stable (c :: r1) e n st h
+
+theorem beforeFractional_err_lt (r : Bytes) (n st : Nat) (h : (beforeFractional r n st).2.2 = .invalidChar) :
+    (beforeFractional r n st).1 < n + r.length := by
+  cases r with
+  | nil => simp [beforeFractional, beforeExponent] at h
+  | cons c r1 =>
+    by_cases hc : (c == 0x2E) = true
+    · cases r1 with
+      | nil => simp [beforeFractional, hc] at h
+      | cons d r2 =>
+        by_cases hd : isDigit d = true
+        · have hL : beforeFractional (c :: d :: r2) n st =
+              beforeExponent (r2.drop (countDigits r2)) (n + 2 + countDigits r2) 4 := by
+            simp [beforeFractional, hc, hd]
+          rw [hL] at h ⊢
+          have := beforeExponent_err_lt _ _ _ h
+          have hle := countDigits_le r2
+          simp at this ⊢; omega
+        · simp [beforeFractional, hc, hd]
+    · have h1 : beforeFractional (c :: r1) n st = beforeExponent (c :: r1) n st := by
+        simp [beforeFractional, hc]
+      rw [h1] at h ⊢
+      exact beforeExponent_err_lt _ _ _ h
+
+
+theorem integerBody_stable (r e : Bytes) (n1 : Nat)
+    (h : Definitive (n1 + r.length) (integerBody r 0 n1 0)) :
+    integerBody (r ++ e) 0 n1 0 = integerBody r 0 n1 0 := by
+  cases r with
+  | nil => simp [Definitive, integerBody] at h
+  | cons c r1 =>
+    by_cases h0 : (c == 0x30) = true
+    · have hL : ∀ t, integerBody (c :: t) 0 n1 0 = beforeFractional t (n1 + 1) 3 := by
+        intro t; simp [integerBody, h0]
+      rw [List.cons_append, hL, hL] at *
+      apply beforeFractional_stable
+      have : n1 + 1 + r1.length = n1 + (c :: r1).length := by simp; omega
+      rw [this]; exact h
+    · by_cases h1 : (0x31 ≤ c && c ≤ 0x39) = true
+      · have hL : ∀ t, integerBody (c :: t) 0 n1 0 =
+            beforeFractional (t.drop (countDigits t)) (n1 + 1 + countDigits t) 2 := by
+          intro t; simp only [integerBody, h0, h1]; simp
+        rw [List.cons_append, hL, hL] at *
+        have hle := countDigits_le r1
+        by_cases hfull : countDigits r1 = r1.length
+        · have hnil : r1.drop (countDigits r1) = [] := by rw [hfull]; simp
+          rw [hnil, beforeFractional_nil] at h
+          simp [Definitive] at h; omega
+        · have hlt : countDigits r1 < r1.length := by omega
+          rw [countDigits_append_lt r1 e hlt, drop_countDigits_append r1 e hlt]
+          apply beforeFractional_stable
+          have : n1 + 1 + countDigits r1 + (r1.drop (countDigits r1)).length = n1 + (c :: r1).length := by
+            simp; omega
+          rw [this]; exact h
+      · simp only [List.cons_append, integerBody, h0, h1]; simp
+
+theorem integerBody_err_lt (r : Bytes) (n1 : Nat) (h : (integerBody r 0 n1 0).2.2 = .invalidChar) :
+    (integerBody r 0 n1 0).1 < n1 + r.length := by
+  cases r with
+  | nil => simp [integerBody] at h
+  | cons c r1 =>
+    by_cases h0 : (c == 0x30) = true
+    · have hL : integerBody (c :: r1) 0 n1 0 = beforeFractional r1 (n1 + 1) 3 := by
+        simp [integerBody, h0]
+      rw [hL] at h ⊢
+      have := beforeFractional_err_lt _ _ _ h
+      simp at this ⊢; omega
+    · by_cases h1 : (0x31 ≤ c && c ≤ 0x39) = true
+      · have hL : integerBody (c :: r1) 0 n1 0 =
+            beforeFractional (r1.drop (countDigits r1)) (n1 + 1 + countDigits r1) 2 := by
+          simp only [integerBody, h0, h1]; simp
+        rw [hL] at h ⊢
+        have := beforeFractional_err_lt _ _ _ h
+        have hle := countDigits_le r1
+        simp at this ⊢; omega
+      · have hL : integerBody (c :: r1) 0 n1 0 = (n1, 0, .invalidChar) := by
+          simp only [integerBody, h0, h1]; simp
+        rw [hL]; simp
+
+/-- a definitive result of a scan from scratch does not change when more input is appended -/
+theorem num_stable (b e : Bytes) (h : Definitive b.length (consumeNumberResumable b 0 0)) :
+    consumeNumberResumable (b ++ e) 0 0 = consumeNumberResumable b 0 0 := by
+  rw [cnr_0, cnr_0] at *
+  cases b with
+  | nil => simp [Definitive, beforeInteger, integerBody] at h
+  | cons c0 b1 =>
+    by_cases hm : (c0 == 0x2D) = true
+    · have hL : ∀ t, beforeInteger (c0 :: t) 0 0 = integerBody t 0 1 0 := by
+        intro t; simp [beforeInteger, hm]
+      rw [List.cons_append, hL, hL] at *
+      apply integerBody_stable
+      have : 1 + b1.length = (c0 :: b1).length := by simp; omega
+      rw [this]; exact h
+    · have hL : ∀ t, beforeInteger (c0 :: t) 0 0 = integerBody (c0 :: t) 0 0 0 := by
+        intro t; simp [beforeInteger, hm]
+      rw [List.cons_append, hL, hL] at *
+      have := integerBody_stable (c0 :: b1) e 0 (by simpa using h)
+      simpa using this
+
+/-- an invalid character is reported strictly inside the buffer -/
+theorem num_err_lt (b : Bytes) (h : (consumeNumberResumable b 0 0).2.2 = .invalidChar) :
+    (consumeNumberResumable b 0 0).1 < b.length := by
+  rw [cnr_0] at *
+  cases b with
+  | nil => simp [beforeInteger, integerBody] at h
+  | cons c0 b1 =>
+    by_cases hm : (c0 == 0x2D) = true
+    · have hL : beforeInteger (c0 :: b1) 0 0 = integerBody b1 0 1 0 := by simp [beforeInteger, hm]
+      rw [hL] at h ⊢
+      have := integerBody_err_lt _ _ h
+      simp; omega
+    · have hL : beforeInteger (c0 :: b1) 0 0 = integerBody (c0 :: b1) 0 0 0 := by simp [beforeInteger, hm]
+      rw [hL] at h ⊢
+      have := integerBody_err_lt _ _ h
+      simpa using this
+
+/-- the only error classes of the number scanner -/
+def NumClass (r : NumRes) : Prop := r.2.2 = .ok ∨ r.2.2 = .eof ∨ r.2.2 = .invalidChar
+
+theorem beforeExponent_class (r : Bytes) (n st : Nat) : NumClass (beforeExponent r n st) := by
+  unfold NumClass beforeExponent
+  repeat' split
+  all_goals simp
+
+theorem beforeFractional_class (r : Bytes) (n st : Nat) : NumClass (beforeFractional r n st) := by
+  unfold beforeFractional
+  repeat' split
+  all_goals first | exact beforeExponent_class _ _ _ | simp [NumClass]
+
+theorem integerBody_class (r : Bytes) (n n1 st : Nat) : NumClass (integerBody r n n1 st) := by
+  unfold integerBody
+  repeat' split
+  all_goals first | exact beforeFractional_class _ _ _ | simp [NumClass]
+
+theorem num_class (b : Bytes) : NumClass (consumeNumberResumable b 0 0) := by
+  rw [cnr_0]; unfold beforeInteger; exact integerBody_class _ _ _ _
+
+/-- the refill condition of decoderState.consumeNumber coincides with `Resumable` for scans from scratch -/
+theorem refill_iff_resumable (b : Bytes) :
+    ((consumeNumberResumable b 0 0).2.2 = .eof ∨ (consumeNumberResumable b 0 0).1 = b.length) ↔
+    Resumable b.length (consumeNumberResumable b 0 0) := by
+  unfold Resumable
+  constructor
+  · rintro (h | h)
+    · exact Or.inl h
+    · rcases num_class b with hc | hc | hc
+      · exact Or.inr ⟨hc, h⟩
+      · exact Or.inl hc
+      · have := num_err_lt b hc; omega
+  · rintro (h | ⟨_, h⟩)
+    · exact Or.inl h
+    · exact Or.inr h
+
+
+theorem beforeExponent_bound (r : Bytes) (n st : Nat) : (beforeExponent r n st).1 ≤ n + r.length := by
+  unfold beforeExponent
+  repeat' split
+  all_goals simp
+  all_goals (first | omega | (have := countDigits_le ‹Bytes›; omega) | skip)
+
+theorem beforeFractional_bound (r : Bytes) (n st : Nat) : (beforeFractional r n st).1 ≤ n + r.length := by
+  cases r with
+  | nil => simp [beforeFractional, beforeExponent]
+  | cons c r1 =>
+    by_cases hc : (c == 0x2E) = true
+    · cases r1 with
+      | nil => simp [beforeFractional, hc]
+      | cons d r2 =>
+        by_cases hd : isDigit d = true
+        · have hL : beforeFractional (c :: d :: r2) n st =
+              beforeExponent (r2.drop (countDigits r2)) (n + 2 + countDigits r2) 4 := by
+            simp [beforeFractional, hc, hd]
+          rw [hL]
+          have := beforeExponent_bound (r2.drop (countDigits r2)) (n + 2 + countDigits r2) 4
+          have hle := countDigits_le r2
+          simp at this ⊢; omega
+        · simp [beforeFractional, hc, hd]
+    · have h1 : beforeFractional (c :: r1) n st = beforeExponent (c :: r1) n st := by
+        simp [beforeFractional, hc]
+      rw [h1]; exact beforeExponent_bound _ _ _
+
+theorem integerBody_bound (r : Bytes) (n1 : Nat) : (integerBody r 0 n1 0).1 ≤ n1 + r.length := by
+  cases r with
+  | nil => simp [integerBody]
+  | cons c r1 =>
+    by_cases h0 : (c == 0x30) = true
+    · have hL : integerBody (c :: r1) 0 n1 0 = beforeFractional r1 (n1 + 1) 3 := by
+        simp [integerBody, h0]
+      rw [hL]
+      have := beforeFractional_bound r1 (n1 + 1) 3
+      simp at this ⊢; omega
+    · by_cases h1 : (0x31 ≤ c && c ≤ 0x39) = true
+      · have hL : integerBody (c :: r1) 0 n1 0 =
+            beforeFractional (r1.drop (countDigits r1)) (n1 + 1 + countDigits r1) 2 := by
+          simp only [integerBody, h0, h1]; simp
+        rw [hL]
+        have := beforeFractional_bound (r1.drop (countDigits r1)) (n1 + 1 + countDigits r1) 2
+        have hle := countDigits_le r1
+        simp at this ⊢; omega
+      · have hL : integerBody (c :: r1) 0 n1 0 = (n1, 0, .invalidChar) := by
+          simp only [integerBody, h0, h1]; simp
+        rw [hL]; simp
+
+theorem num_bound (b : Bytes) : (consumeNumberResumable b 0 0).1 ≤ b.length := by
+  rw [cnr_0]
+  cases b with
+  | nil => simp [beforeInteger, integerBody]
+  | cons c0 b1 =>
+    by_cases hm : (c0 == 0x2D) = true
+    · have hL : beforeInteger (c0 :: b1) 0 0 = integerBody b1 0 1 0 := by simp [beforeInteger, hm]
+      rw [hL]
+      have := integerBody_bound b1 1
+      simp; omega
+    · have hL : beforeInteger (c0 :: b1) 0 0 = integerBody (c0 :: b1) 0 0 0 := by simp [beforeInteger, hm]
+      rw [hL]
+      have := integerBody_bound (c0 :: b1) 0
+      simpa using this
+
+/-- `(n, st)` is as good as a fresh start on every extension of `b` -/
+def FreshEquiv (b : Bytes) (n st : Nat) : Prop :=
+  ∀ e, NumEquiv (b ++ e).length (consumeNumberResumable (b ++ e) n st) (consumeNumberResumable (b ++ e) 0 0)
+
+theorem freshEquiv_init (b : Bytes) : FreshEquiv b 0 0 := fun _ => NumEquiv.refl _ _
+
+theorem consumeNumberChunks_nil (b : Bytes) (n st : Nat) :
+    consumeNumberChunks b n st [] =
+      (let r := consumeNumberResumable b n st
+       if r.2.2 = .eof ∨ r.1 = b.length then (if r.2.2 = .ok then (r.1, .ok) else (0, .eof)) else (r.1, r.2.2)) := by
+  simp [consumeNumberChunks]
+
+theorem consumeNumberChunks_cons (b : Bytes) (n st : Nat) (c : Bytes) (cs : List Bytes) :
+    consumeNumberChunks b n st (c :: cs) =
+      (let r := consumeNumberResumable b n st
+       if r.2.2 = .eof ∨ r.1 = b.length then consumeNumberChunks (b ++ c) r.1 r.2.1 cs else (r.1, r.2.2)) := by
+  simp [consumeNumberChunks]
+
+theorem consumeNumberChunks_inv (cs : List Bytes) : ∀ (b : Bytes) (n st : Nat), FreshEquiv b n st →
+    consumeNumberChunks b n st cs = consumeNumberChunks (b ++ cs.flatten) 0 0 [] := by
+  induction cs with
+  | nil =>
+    intro b n st h
+    have h0 := h []
+    simp only [List.append_nil] at h0
+    obtain ⟨hn, herr, _⟩ := h0
+    simp only [List.flatten_nil, List.append_nil, consumeNumberChunks_nil, hn, herr]
+  | cons c cs ih =>
+    intro b n st h
+    have h0 := h []
+    simp only [List.append_nil] at h0
+    obtain ⟨hn, herr, hst⟩ := h0
+    rw [consumeNumberChunks_cons]
+    simp only
+    by_cases hcond : (consumeNumberResumable b n st).2.2 = .eof ∨ (consumeNumberResumable b n st).1 = b.length
+    · rw [if_pos hcond]
+      have hcond0 : (consumeNumberResumable b 0 0).2.2 = .eof ∨ (consumeNumberResumable b 0 0).1 = b.length := by
+        rw [← hn, ← herr]; exact hcond
+      have hres0 := (refill_iff_resumable b).mp hcond0
+      have hres : Resumable b.length (consumeNumberResumable b n st) := by
+        unfold Resumable at *; rw [hn, herr]; exact hres0
+      rw [hn, hst hres]
+      have hfresh : FreshEquiv (b ++ c) (consumeNumberResumable b 0 0).1 (consumeNumberResumable b 0 0).2.1 := by
+        intro e
+        have := num_resume_equiv b (c ++ e) hres0
+        simpa [List.append_assoc] using this
+      rw [ih (b ++ c) _ _ hfresh]
+      simp [List.append_assoc]
+    · rw [if_neg hcond]
+      have hdef : Definitive b.length (consumeNumberResumable b 0 0) := by
+        unfold Definitive; rw [← hn, ← herr]
+        exact ⟨fun h => hcond (Or.inl h), fun h => hcond (Or.inr h)⟩
+      have hstab := num_stable b (c :: cs).flatten hdef
+      have hb := num_bound b
+      rw [consumeNumberChunks_nil, hstab]
+      simp only
+      have hne : ¬ ((consumeNumberResumable b 0 0).2.2 = .eof ∨
+          (consumeNumberResumable b 0 0).1 = (b ++ (c :: cs).flatten).length) := by
+        rintro (h | h)
+        · exact hdef.1 h
+        · have := hdef.2; simp at h; omega
+      rw [if_neg hne, hn, herr]
+
+/-- `chunk_indep` for numbers: however the bytes of the input are split into chunks, the refill loop of
+decoderState.consumeNumber returns what it returns on the whole input in one piece. -/
+theorem num_chunk_indep (c : Bytes) (cs : List Bytes) :
+    consumeNumberChunks c 0 0 cs = consumeNumberChunks (c ++ cs.flatten) 0 0 [] :=
+  consumeNumberChunks_inv cs c 0 0 (freshEquiv_init c)
+
 end JsonV.Model.Resume
